@@ -26,8 +26,49 @@ def main(tier):
         jobs.append(dict(par=dict(stack="enc", seed=seed() + 71 + bad), sid=sid, adv=dict(bad_chunk=bad))); sid += 1
     traces = run_repair_sweeps(jobs, "s20", "c04")
     validate_repair_traces(v, "C04", traces, ev, CLAUSES)
-    # the layer-level design: EncFailSafe model (TLC)
-    cov = dict(states=res.distinct + ev.get("trace_states", 0), transitions=res.generated,
+    # the layer level: EncFailSafe model checked by TLC, every edge replayed on the real fail-safe decryption reader
+    import os, json
+    cfg = f"EncFailSafe.{tier}.cfg"
+    r = tlc("MCEncFailSafe", cfg, "c04-encfs", workers=1, timeout=3000, heap="12g")
+    ev.setdefault("tlc", []).append(dict(module="EncFailSafe", cfg=cfg, generated=r.generated, distinct=r.distinct, violation=r.violation))
+    if r.violation:
+        tlc_counterexample_violation(v, r, "MCEncFailSafe", cfg)
+    else:
+        edges, inits = r.prints["EDGE"], r.prints["INIT"]
+        if len(edges) + len(inits) != r.generated or r.prints.get("BAD"):
+            raise ToolError("incomplete EncFailSafe export")
+        runs, unreachable = edge_tours(edges, inits, max_len=200)
+        nch = 3 if tier == "quick" else 4
+        wd = workdir("c04-encfs")
+        shards = [runs[i::8] for i in range(8)]
+
+        def one(i):
+            rp, op = os.path.join(wd, f"runs{i}.jsonl"), os.path.join(wd, f"out{i}.json")
+            write_jsonl(rp, [dict(par=dict(NChunks=nch, LastLen=7, seed=seed() + 3), init=init,
+                                  steps=[dict(lab=e["lab"], to=e["to"]) for e in steps]) for init, steps in shards[i]])
+            mbt("s20", "encfs", rp, op, timeout=3000)
+            os.remove(rp)
+            return json.load(open(op))
+
+        from concurrent.futures import ThreadPoolExecutor
+        build("s20")
+        with ThreadPoolExecutor(max_workers=8) as ex:
+            outs = list(ex.map(one, range(8)))
+        tot = dict(runs=0, steps=0, hidden_compared=0, drifts=0)
+        for o in outs:
+            for k in tot:
+                tot[k] += o[k]
+            if o["drifts"]:
+                log(f"MODEL-DRIFT module=EncFailSafe drifts={o['drifts']} sample={json.dumps(o['drift_samples'][:1])[:500]}")
+            for viol in o["violations"]:
+                init = viol["init"]
+                rec = dict(check="encfs-replay", kind=viol["kind"], mode=init["mode"], badchunk=init["bad"]["c"],
+                           first_unverified_chunk_is_0=(init["mode"] == "auth" and (init["bad"]["c"] == 0 or init["present"]["n"] == 1)))
+                v.violation(rec, dict(engine="encfs", profile="s20", detail=viol))
+        ev["encfs"] = dict(edges=len(edges), states=r.distinct, **tot)
+        log(f"[C04] EncFailSafe: {len(edges)} edges replayed in {tot['runs']} runs, {tot['hidden_compared']} hidden-state comparisons, {tot['drifts']} drifts")
+    cov = dict(states=res.distinct + ev.get("trace_states", 0) + ev.get("encfs", {}).get("states", 0), transitions=res.generated,
+               encfs_model=ev.get("encfs"), tlc_runs=ev.get("tlc"),
                traces_validated_against_impl=ev.get("traces", 0), repairs_validated=ev.get("repairs", 0),
                archives=ev.get("scenarios", 0), samples=[dict(labels=c["labels"]) for c in chosen[:2]] or ["none"],
                rule="encrypted archives from Writer-model behaviours: every truncation, a data-bit and a tag-bit flip in "
